@@ -11,9 +11,6 @@ package dawn
 // events for the TLA+ monitor BuildMon.
 
 import (
-	"runtime"
-	"net/url"
-	"math/rand"
 	"bufio"
 	"crypto/sha256"
 	"encoding/hex"
@@ -21,9 +18,12 @@ import (
 	"errors"
 	"fmt"
 	"io/fs"
+	"math/rand"
+	"net/url"
 	"os"
 	"os/exec"
 	"path/filepath"
+	"runtime"
 	"sort"
 	"strings"
 	"sync"
@@ -33,9 +33,9 @@ import (
 
 	"github.com/pgavlin/dawn/diff"
 	"github.com/pgavlin/dawn/internal/zzverif/sched"
+	"github.com/pgavlin/dawn/label"
 	starlark_os "github.com/pgavlin/dawn/lib/os"
 	starlark_sh "github.com/pgavlin/dawn/lib/sh"
-	"github.com/pgavlin/dawn/label"
 	"go.starlark.net/starlark"
 )
 
@@ -100,25 +100,25 @@ type bTrace struct {
 // ---- workspace ------------------------------------------------------------------------
 
 type bWorld struct {
-	dir     string
-	shape   *bShape
-	values  string
-	envVer  map[string]int // version of every target's env atom
-	srcVer  map[string]int // version of every plain source
-	unref   map[string]int // version of an unreferenced global per target (non-input)
-	comment int
-	rec     *sched.Recorder
-	mu      sync.Mutex
-	fail    map[string]bool
-	execLog []string
-	crash   *bCrash
-	hits    map[string]int
-	proj    *Project // the project of the last build step (for session steps)
-	evalLogged  sync.Map    // names whose evaluating event has been logged in this build
-	viaCallback atomic.Bool // a build started with run(callback=...) is under way
-	inflight atomic.Int64 // evaluating events without their succeeded/failed yet
-	evalSeen sync.Map
-	fixedArgs []string // child builds: the command line decided by the parent
+	dir         string
+	shape       *bShape
+	values      string
+	envVer      map[string]int // version of every target's env atom
+	srcVer      map[string]int // version of every plain source
+	unref       map[string]int // version of an unreferenced global per target (non-input)
+	comment     int
+	rec         *sched.Recorder
+	mu          sync.Mutex
+	fail        map[string]bool
+	execLog     []string
+	crash       *bCrash
+	hits        map[string]int
+	proj        *Project     // the project of the last build step (for session steps)
+	evalLogged  sync.Map     // names whose evaluating event has been logged in this build
+	viaCallback atomic.Bool  // a build started with run(callback=...) is under way
+	inflight    atomic.Int64 // evaluating events without their succeeded/failed yet
+	evalSeen    sync.Map
+	fixedArgs   []string // child builds: the command line decided by the parent
 	// watch mode
 	watching  atomic.Bool
 	watchRoot string
@@ -228,7 +228,9 @@ func (w *bWorld) srcRel(s string) string {
 	return "src/" + s + ".txt"
 }
 
-func (w *bWorld) srcPath(s string) string { return filepath.Join(w.dir, filepath.FromSlash(w.srcRel(s))) }
+func (w *bWorld) srcPath(s string) string {
+	return filepath.Join(w.dir, filepath.FromSlash(w.srcRel(s)))
+}
 
 // relative path from a package to a root-relative path
 func relFrom(pkg, rel string) string {
@@ -387,7 +389,14 @@ func bToken(p string) string {
 	}
 	var parts []string
 	filepath.WalkDir(p, func(q string, d fs.DirEntry, err error) error {
-		if err != nil || d.IsDir() {
+		if err != nil {
+			return nil
+		}
+		if d.IsDir() {
+			// the tree's shape is part of what a body sees: sub-directories count, empty or not
+			if rel, _ := filepath.Rel(p, q); rel != "." {
+				parts = append(parts, filepath.ToSlash(rel)+"/")
+			}
 			return nil
 		}
 		rel, _ := filepath.Rel(p, q)
@@ -413,7 +422,8 @@ func (w *bWorld) setup() error {
 		}
 		if w.isDir(s) {
 			os.MkdirAll(filepath.Join(w.srcPath(s), ".settings"), 0755)
-			for _, f := range []string{"a.txt", "b.txt", ".env", ".settings/level.txt"} {
+			os.MkdirAll(filepath.Join(w.srcPath(s), "lib"), 0755)
+			for _, f := range []string{"a.txt", "b.txt", ".env", ".settings/level.txt", "lib/c.txt"} {
 				if err := os.WriteFile(filepath.Join(w.srcPath(s), f), []byte("c-"+f), 0644); err != nil {
 					return err
 				}
@@ -1160,6 +1170,29 @@ func (w *bWorld) apply(c *bCase, st *bStep, exe string) error {
 			case "hidden":
 				// only a hidden entry of the directory changes
 				os.WriteFile(filepath.Join(w.srcPath(st.S), ".env"), []byte(fmt.Sprintf("h-v%d", w.srcVer[st.S])), 0644)
+			case "renamedir", "movefile", "emptydir":
+				// the shape of the tree below the directory changes, no file's name or contents does
+				subs := func() []string {
+					all, _ := os.ReadDir(w.srcPath(st.S))
+					var out []string
+					for _, e := range all {
+						if e.IsDir() && !strings.HasPrefix(e.Name(), ".") && !strings.HasPrefix(e.Name(), "e") {
+							out = append(out, e.Name())
+						}
+					}
+					return out
+				}()
+				switch {
+				case st.Kind == "emptydir":
+					os.MkdirAll(filepath.Join(w.srcPath(st.S), fmt.Sprintf("e%d", w.srcVer[st.S])), 0755)
+				case st.Kind == "renamedir" && len(subs) > 0:
+					os.Rename(filepath.Join(w.srcPath(st.S), subs[0]), filepath.Join(w.srcPath(st.S), fmt.Sprintf("lib%d", w.srcVer[st.S])))
+				case st.Kind == "movefile" && len(subs) > 0:
+					to := filepath.Join(w.srcPath(st.S), fmt.Sprintf("inc%d", w.srcVer[st.S]))
+					os.MkdirAll(to, 0755)
+					os.Rename(filepath.Join(w.srcPath(st.S), subs[0], "c.txt"), filepath.Join(to, "c.txt"))
+					os.Remove(filepath.Join(w.srcPath(st.S), subs[0]))
+				}
 			case "dangling":
 				// a link to nowhere sits in the directory (an editor's lock file) while a file changes
 				os.Symlink("nowhere", filepath.Join(w.srcPath(st.S), ".#a.txt"))
@@ -1301,11 +1334,11 @@ func (w *bWorld) apply(c *bCase, st *bStep, exe string) error {
 // ---- crashing builds run in a child process ------------------------------------------------------
 
 type bChildSpec struct {
-	Dir    string  `json:"dir"`
-	Shape  *bShape `json:"shape"`
-	Values string  `json:"values"`
-	Step   bStep   `json:"step"`
-	Log    string  `json:"log"`
+	Dir    string   `json:"dir"`
+	Shape  *bShape  `json:"shape"`
+	Values string   `json:"values"`
+	Step   bStep    `json:"step"`
+	Log    string   `json:"log"`
 	Args   []string `json:"args"`
 	// the versions the parent has written so far (a watch step goes on editing from there)
 	EnvVer  map[string]int `json:"env_ver,omitempty"`
